@@ -435,3 +435,45 @@ def interferometer_inversion_gram(mask, pixel_scales, origin, uv, matrix, matrix
     if got_f.shape != F.shape or np.abs(got_f - F).max() > tol_f:
         return "curvature_matrix != Tr^T Wr Tr + Ti^T Wi Ti: %r vs %r" % (got_f, F)
     return None
+
+
+# ----------------------------------------------------------------------------------------------- one transformer, many inputs
+
+@bounded("C13", "dft-class-one-transformer-many-inputs", gen=_gen_class, nontrivial=_nt_class)
+def dft_class_one_transformer_many_inputs(mask, pixel_scales, origin, uv, image, matrix, vis):
+    """C13: 'the direct-Fourier transformer returns visibilities V_k = sum_p I_p exp(...) ... The transformed mapping matrix
+    equals this operator applied to each column of any real-valued matrix, and the image returned from visibilities is the real
+    part of the conjugate-transpose operator' -- for every input, whatever the SAME transformer object transformed before: one
+    TransformerDFT (preload on / off) is given, one after the other, inputs that agree in shape and in every summary a memo could
+    be keyed on (total sum, per-row sums, sorted values): a matrix, its column-reversed and row-rolled versions and a matrix with
+    the same row sums; an image and its reversed version; visibilities and their reversed version; then the first of each
+    again.  Every result against the operator; bound: masks <= 3x3, <= 3 columns, <= 6 baselines."""
+    A = _operator(_centres_radians(mask, pixel_scales, origin), uv)
+    p = int((~mask).sum())
+    mats = [matrix, matrix[:, ::-1].copy(), np.roll(matrix, 1, axis=0)]
+    same_rows = matrix.copy()
+    if matrix.shape[1] >= 2:
+        same_rows[:, 0], same_rows[:, 1] = matrix[:, 0] + 0.25, matrix[:, 1] - 0.25        # same row sums, same total
+        mats.append(same_rows)
+    onehot = np.zeros_like(matrix); onehot[np.arange(p), np.arange(p) % matrix.shape[1]] = 1.0
+    mats += [onehot, onehot[:, ::-1].copy(), matrix]
+    slim = image[~mask]
+    ims = [slim, slim[::-1].copy(), slim]
+    v = vis[:, 0] + 1j * vis[:, 1]
+    vs = [v, v[::-1].copy(), v]
+    for preload in (True, False):
+        aa, mk, t = _setup(mask, pixel_scales, origin, uv, preload)
+        for k, M in enumerate(mats):
+            got = np.asarray(t.transform_mapping_matrix(mapping_matrix=M.copy()))
+            if not _close(got, A @ M, float(np.abs(M).sum())):
+                return "call %d of transform_mapping_matrix on one transformer (preload=%s) != operator applied to THIS matrix; max abs error %.3g" % (
+                    k + 1, preload, float(np.abs(got - A @ M).max()))
+        for k, I in enumerate(ims):
+            got = np.asarray(t.visibilities_from(image=aa.Array2D(values=I.copy(), mask=mk)))
+            if not _close(got, A @ I, float(np.abs(I).sum())):
+                return "call %d of visibilities_from on one transformer (preload=%s) != A I for THIS image" % (k + 1, preload)
+        for k, w in enumerate(vs):
+            got = np.asarray(t.image_from(visibilities=aa.Visibilities(visibilities=w.copy())).slim)
+            if not _close(got, (A.conj().T @ w).real, float(np.abs(w).sum())):
+                return "call %d of image_from on one transformer (preload=%s) != Re(A^H v) for THESE visibilities" % (k + 1, preload)
+    return None
